@@ -3,6 +3,7 @@
 package main
 
 import (
+	"time"
 	"math"
 	"fmt"
 	"math/big"
@@ -495,6 +496,55 @@ func genC09(c *Ctx) {
 				return "", nil
 			})
 		}
+	}
+	// the sampling helpers return for every value and every history on one generator: bounds whose byte width grows and
+	// shrinks between calls, populations crossing 256 and 65536 inside one call, repeated calls
+	for hi, hist := range [][]string{
+		{"u9223372036854775808", "u300", "u3", "u65536", "u255", "u256", "u1"},
+		{"u300", "u18446744073709551615", "u2", "u70000", "u200"},
+		{"p300", "p300", "p2", "p70000", "p255"},
+		{"sh300", "sh257", "sh3", "sm300,300", "sm70000,5", "sp300,299", "sp257,257"},
+		{"u1099511627776", "p260", "sm260,260", "u5", "sh66000", "u4294967296", "u4294967295", "p17"},
+	} {
+		ans := guardT(60*time.Second, func() string {
+			g, err := random.NewChacha20PRG(c.bytes(32), c.bytes(5))
+			if err != nil {
+				return "constructor-error"
+			}
+			for _, op := range hist {
+				var n, m int
+				var u uint64
+				switch {
+				case strings.HasPrefix(op, "u"):
+					fmt.Sscanf(op, "u%d", &u)
+					if v := g.UintN(u); v >= u {
+						return fmt.Sprintf("UintN(%d) = %d", u, v)
+					}
+				case strings.HasPrefix(op, "p"):
+					fmt.Sscanf(op, "p%d", &n)
+					if l, err := g.Permutation(n); err != nil || len(l) != n {
+						return "Permutation(" + fmt.Sprint(n) + ") refused or of the wrong length"
+					}
+				case strings.HasPrefix(op, "sh"):
+					fmt.Sscanf(op, "sh%d", &n)
+					if err := g.Shuffle(n, func(int, int) {}); err != nil {
+						return "Shuffle refused " + fmt.Sprint(n)
+					}
+				case strings.HasPrefix(op, "sm"):
+					fmt.Sscanf(op, "sm%d,%d", &n, &m)
+					if err := g.Samples(n, m, func(int, int) {}); err != nil {
+						return "Samples refused " + op
+					}
+				case strings.HasPrefix(op, "sp"):
+					fmt.Sscanf(op, "sp%d,%d", &n, &m)
+					if l, err := g.SubPermutation(n, m); err != nil || len(l) != m {
+						return "SubPermutation refused or of the wrong length " + op
+					}
+				}
+			}
+			return "ok"
+		})
+		c.Case("prg-helpers-return", fmt.Sprintf("expect ok #history %d: %s", hi, strings.Join(hist, " ")), ans)
 	}
 	for _, e_name := range ordered(byteShapes(c, 52)) {
 		name, st := e_name.k, e_name.v
